@@ -133,6 +133,10 @@ def ensure(cfgs=('full',), repo=None):
     with open(os.path.join(CACHE, lockname), 'w') as lk:
         fcntl.flock(lk, fcntl.LOCK_EX)
         os.makedirs(base, exist_ok=True)
+        # processes with different build directories (ZL_TARGET) hold different locks above; two of them may still be asked for the
+        # same tree (identical variants in tools/regress.py), so the facts directory itself is locked too (always in this order)
+        hl = open(os.path.join(base, '.lock'), 'w')
+        fcntl.flock(hl, fcntl.LOCK_EX)
         log = os.path.join(base, 'build.log')
         for cfg in cfgs:
             d = os.path.join(base, cfg)
